@@ -1277,7 +1277,7 @@ var vhAllEvents = []int{
 
 // vhTailEvents: the events that carry no new vote numbers (quick tier: last event of a sequence).
 var vhTailEvents = []int{
-	evHeader, evTimer, evPrevoteAnswer, evPrecommitAnswer, evProposal, evFinalization, evHeightCommitted,
+	evHeader, evTimer, evPrevoteAnswer, evPrecommitAnswer, evProposal, evFinalization, evHeightCommitted, evBlockData,
 }
 
 // replayingCH: the mirror answered the last round entrance with a committed header.
